@@ -1,5 +1,233 @@
-(* C03 — property theorems (placeholder until the model is built). *)
-From WI Require Import Lib.Base Lib.Info Model.Cert Proofs.Cert.
-Theorem C03_placeholder : True.
-Proof. exact I. Qed.
-Print Assumptions C03_placeholder.
+(* C03 — X.509 certificate fields are reported faithfully.
+   Only statements; proofs are in Proofs/Cert.v and Proofs/CertTime.v.
+
+   Setting.  [enc_cert] is the content of a certificate AS ENCODED (version, serial, names, validity,
+   SubjectPublicKeyInfo, and each extension as an option); [x509_spec : enc_cert -> cert_fields] states what
+   crypto/x509.ParseCertificate hands to the tool (a library oracle, validated by the correspondence
+   check on every generated certificate); [describe] mirrors getCertificateInfo line by line.
+   [enc_ok] is RFC 5280 well-formedness as far as needed (extensions only in v3, key identifiers
+   non-empty, pathLenConstraint >= 0, OIDs non-empty) plus: no list item shown contains the list
+   separator ", " (see C03_separator_not_escaped).  Subject / issuer text is names.FromRawDN's (C15). *)
+From WI Require Import Lib.Base Lib.Info Lib.Time Model.Cert Proofs.CertTime Proofs.Cert.
+From WI Require gen.CertTables.
+From Coq Require Import Permutation.
+Open Scope N_scope.
+
+(* ---- the main statement: the report determines, and is determined by, what is encoded ---- *)
+(* [canonical_view c] is computed from the encoded content alone; [read_back] parses the printed
+   description and attribute list (decimal, hex, ", "-separated lists) back into a record *)
+Theorem C03_faithful : forall c, enc_ok c = true ->
+  read_back (describe (x509_spec c)) = Some (canonical_view c).
+Proof. exact faithful. Qed.
+Print Assumptions C03_faithful.
+
+(* the printed tree is exactly the one computed from the encoded content: no attribute more, none
+   fewer, in the fixed order, with the "Public key" child *)
+Theorem C03_exactly_expected : forall c, enc_ok c = true ->
+  describe (x509_spec c) = expected_info c.
+Proof. exact describe_expected. Qed.
+Print Assumptions C03_exactly_expected.
+
+(* ---- path length ---- *)
+Theorem C03_pathlen : forall c v, enc_ok c = true ->
+  (attr (bs "Max path length") (shown c) = Some v <->
+   exists n, e_basic c = Some (true, Some n) /\ v = dec_of_Z n).
+Proof. exact path_len_shown_iff. Qed.
+Print Assumptions C03_pathlen.
+
+(* no path length when none is encoded (F12) *)
+Theorem C03_pathlen_not_invented : forall c, enc_ok c = true ->
+  (forall n, e_basic c <> Some (true, Some n)) -> attr (bs "Max path length") (shown c) = None.
+Proof. exact path_len_absent. Qed.
+Print Assumptions C03_pathlen_not_invented.
+
+(* the code before the repair refutes it: a CA certificate without pathLenConstraint showed "-1" *)
+Theorem C03_pathlen_refuted_before_repair : exists c, enc_ok c = true /\
+  (forall n, e_basic c <> Some (true, Some n)) /\
+  attr (bs "Max path length") (i_attrs (describe_gen pre_F12 (x509_spec c))) = Some (bs "-1").
+Proof. exact pre_F12_refuted. Qed.
+Print Assumptions C03_pathlen_refuted_before_repair.
+
+(* ---- version and role ---- *)
+(* "x.509v<version>[ CA| end-entity] certificate": CA iff basicConstraints with cA TRUE, end-entity iff
+   basicConstraints with cA FALSE, neither word when the extension is absent (e.g. every v1 certificate) *)
+Theorem C03_role : forall c, enc_ok c = true ->
+  i_desc (describe (x509_spec c)) =
+  bs "x.509v" ++ dec_of_N (e_version c) ++
+  match e_basic c with
+  | Some (true, _) => bs " CA"
+  | Some (false, _) => bs " end-entity"
+  | None => []
+  end ++ bs " certificate".
+Proof. exact role_shown. Qed.
+Print Assumptions C03_role.
+
+(* ---- key usage ---- *)
+(* all 512 masks (finite sweep by vm_compute over the table regenerated from the code): the names
+   shown are the labels of the set bits, in bit order *)
+Theorem C03_key_usage_sweep : forall m, m < 512 ->
+  key_usages m = select_names usage_labels (bits_of_mask m).
+Proof. exact key_usages_sweep. Qed.
+Print Assumptions C03_key_usage_sweep.
+
+(* general, by induction over ANY table in bit order, for every mask (bits above 8 included) *)
+Theorem C03_key_usage : forall t i ku, bit_ordered i t = true ->
+  usages_of t ku = names_at_bits i t ku.
+Proof. exact usages_of_bit_ordered. Qed.
+Print Assumptions C03_key_usage.
+
+(* T1 instance: the table the running code holds is in bit order *)
+Theorem C03_key_usage_table_ok : bit_ordered 0 gen.CertTables.key_usage_table = true.
+Proof. exact key_usage_table_bit_ordered. Qed.
+Print Assumptions C03_key_usage_table_ok.
+
+Theorem C03_key_usage_high_bits_ignored : forall ku, key_usages ku = key_usages (ku mod 512).
+Proof. exact key_usages_high_bits. Qed.
+Print Assumptions C03_key_usage_high_bits_ignored.
+
+(* from the encoded BIT STRING (any length): its first nine bits select the labels; and the attribute
+   can be split back into exactly these labels *)
+Theorem C03_key_usage_encoded : forall c, enc_ok c = true ->
+  attr (bs "Key usage") (shown c) = Some (comma_join (expected_usages c)) /\
+  split_list (comma_join (expected_usages c)) = expected_usages c.
+Proof. exact key_usage_shown. Qed.
+Print Assumptions C03_key_usage_encoded.
+
+Theorem C03_key_usage_label_iff_bit : forall names bits t,
+  In t (select_names names bits) <-> exists i, nth_error names i = Some t /\ nth_error bits i = Some true.
+Proof. exact in_select_names. Qed.
+Print Assumptions C03_key_usage_label_iff_bit.
+
+(* ---- extended key usage ---- *)
+(* every encoded KeyPurposeId is shown (by name when known, dotted otherwise), none is dropped or
+   added; the known ones come first, so the encoded ORDER is not preserved: the statement is a
+   permutation, which is what "exactly those encoded" means for a set-valued field *)
+Theorem C03_eku : forall c, enc_ok c = true ->
+  attr (bs "Extended key usage") (shown c) = Some (comma_join (expected_ekus c)) /\
+  split_list (comma_join (expected_ekus c)) = expected_ekus c /\
+  Permutation (map eku_text (opt_list (e_ekus c))) (expected_ekus c).
+Proof. exact eku_shown. Qed.
+Print Assumptions C03_eku.
+
+Theorem C03_eku_known_by_name : forall o n, In (o, n) eku_labels -> eku_text o = n.
+Proof. exact eku_label_shown. Qed.
+Print Assumptions C03_eku_known_by_name.
+
+Theorem C03_eku_unknown_dotted : forall o, eku_known o = false -> eku_text o = dotted o.
+Proof. exact eku_unknown_dotted. Qed.
+Print Assumptions C03_eku_unknown_dotted.
+
+(* ---- subject alternative names ---- *)
+(* every DNS / IP / URI / email name is present, nothing else is; grouped by kind (DNS, IP, URI,
+   email), so the encoded interleaving is not preserved: a permutation again *)
+Theorem C03_san : forall c, enc_ok c = true ->
+  attr (bs "SANs") (shown c) = (if nonempty (expected_sans c) then Some (comma_join (expected_sans c)) else None) /\
+  split_list (comma_join (expected_sans c)) = expected_sans c /\
+  Permutation (map san_text (filter san_reported (opt_list (e_sans c)))) (expected_sans c).
+Proof. exact sans_shown. Qed.
+Print Assumptions C03_san.
+
+Theorem C03_san_present : forall c g, enc_ok c = true ->
+  In g (opt_list (e_sans c)) -> san_reported g = true -> In (san_text g) (expected_sans c).
+Proof. exact san_present. Qed.
+Print Assumptions C03_san_present.
+
+Theorem C03_san_has_source : forall c t, enc_ok c = true -> In t (expected_sans c) ->
+  exists g, In g (opt_list (e_sans c)) /\ san_reported g = true /\ t = san_text g.
+Proof. exact san_has_source. Qed.
+Print Assumptions C03_san_has_source.
+
+(* before the repair a 16-octet IPv4-mapped address and the 4-octet address gave the same report *)
+Theorem C03_san_ip_refuted_before_repair : exists c1 c2, enc_ok c1 = true /\ enc_ok c2 = true /\
+  e_sans c1 <> e_sans c2 /\ describe_gen pre_ip16 (x509_spec c1) = describe_gen pre_ip16 (x509_spec c2).
+Proof. exact pre_ip16_refuted. Qed.
+Print Assumptions C03_san_ip_refuted_before_repair.
+
+(* not repaired, excluded by enc_ok: the separator ", " is not escaped inside a name *)
+Theorem C03_separator_not_escaped : exists c1 c2, e_sans c1 <> e_sans c2 /\
+  describe (x509_spec c1) = describe (x509_spec c2) /\ enc_ok c1 = false /\ enc_ok c2 = true.
+Proof. exact san_separator_ambiguity. Qed.
+Print Assumptions C03_separator_not_escaped.
+
+(* ---- serial ---- *)
+Theorem C03_serial_decimal : forall c, enc_ok c = true ->
+  attr (bs "Serial") (shown c) = Some (dec_of_N (e_serial c)).
+Proof. exact serial_shown. Qed.
+Print Assumptions C03_serial_decimal.
+
+(* decimal text determines the number: for every natural number, of any size *)
+Theorem C03_decimal_reads_back : forall n, parse_dec (dec_of_N n) = Some n.
+Proof. exact parse_dec_of_N. Qed.
+Print Assumptions C03_decimal_reads_back.
+
+(* ---- key identifiers ---- *)
+Theorem C03_key_ids : forall c, enc_ok c = true ->
+  option_map unhex (attr (bs "Subject key id") (shown c)) = e_ski c /\
+  option_map unhex (attr (bs "Authority key id") (shown c)) = e_aki c.
+Proof. exact key_ids_shown. Qed.
+Print Assumptions C03_key_ids.
+
+(* ---- dates ---- *)
+Theorem C03_dates : forall c, enc_ok c = true ->
+  attr (bs "Not before") (shown c) = Some (date_string (e_not_before c)) /\
+  attr (bs "Not after") (shown c) = Some (date_string (e_not_after c)).
+Proof. exact dates_shown. Qed.
+Print Assumptions C03_dates.
+
+(* the text is YYYY-MM-DD of the proleptic Gregorian day (UTC) that contains the instant — for every
+   instant (Z): periodicity of the calendar + an exhaustive check of one 400-year cycle *)
+Theorem C03_date_is_utc_day : forall sec,
+  match civil_of_days (sec / 86400)%Z with
+  | (y, m, d) =>
+      date_string sec = dec_w 4 y ++ [45] ++ dec_w 2 m ++ [45] ++ dec_w 2 d
+      /\ days_of_civil y m d = (sec / 86400)%Z
+      /\ (1 <= m <= 12)%Z /\ (1 <= d <= 31)%Z
+  end.
+Proof. exact date_string_spec. Qed.
+Print Assumptions C03_date_is_utc_day.
+
+(* ---- signature algorithm ---- *)
+Theorem C03_sigalg_refuted_before_repair : exists c1 c2, enc_ok c1 = true /\ enc_ok c2 = true /\
+  e_sig c1 <> e_sig c2 /\
+  describe_gen pre_sigoid (x509_spec c1) = describe_gen pre_sigoid (x509_spec c2) /\
+  attr (bs "Signature algorithm") (i_attrs (describe_gen pre_sigoid (x509_spec c1))) = Some (bs "0").
+Proof. exact pre_sigoid_refuted. Qed.
+Print Assumptions C03_sigalg_refuted_before_repair.
+
+(* ---- nothing invented ---- *)
+(* every attribute shown is one of the twelve, and is there only because its source is encoded *)
+Theorem C03_nothing_invented : forall c n v, enc_ok c = true -> In (n, v) (shown c) -> attr_source c n v.
+Proof. exact nothing_invented. Qed.
+Print Assumptions C03_nothing_invented.
+
+Theorem C03_no_attribute_twice : forall c, enc_ok c = true -> NoDup (map fst (shown c)).
+Proof. exact names_unique. Qed.
+Print Assumptions C03_no_attribute_twice.
+
+(* ---- subject public key ---- *)
+(* the "Public key" child is computed from the encoded SubjectPublicKeyInfo alone (C03_exactly_expected);
+   its "Size: n bits" is the bit length of the encoded RSA modulus / DSA prime, as a number *)
+Theorem C03_key_size_is_bit_length : forall l, bytes_ok l = true -> bitlen_be l = N.size (be_to_N l).
+Proof. exact bitlen_be_size. Qed.
+Print Assumptions C03_key_size_is_bit_length.
+
+(* ---- presentations: DER / base64 / one PEM block show the certificate itself; a bundle and a
+   keystore show every certificate, in order, each exactly as when inspected alone ---- *)
+Theorem C03_single_block : forall i, present_pem [i] = Ok i.
+Proof. exact present_single. Qed.
+Print Assumptions C03_single_block.
+
+Theorem C03_bundle : forall i j r,
+  present_pem (i :: j :: r) = Ok (Info (bs "multiple PEM blocks") [] (i :: j :: r)).
+Proof. exact present_bundle. Qed.
+Print Assumptions C03_bundle.
+
+Theorem C03_keystore : forall extras certs, length extras = length certs ->
+  map i_children (i_children (present_jks extras certs)) = map (fun c => [c]) certs.
+Proof. exact present_keystore. Qed.
+Print Assumptions C03_keystore.
+
+(* ---- the hypotheses are satisfiable by a content that uses every field ---- *)
+Theorem C03_example_meets_hypotheses : enc_ok example_full = true.
+Proof. exact example_full_ok. Qed.
+Print Assumptions C03_example_meets_hypotheses.
